@@ -5,6 +5,7 @@ package scen
 // boundary magnitudes; oracle: exact big-number arithmetic on the input.
 
 import (
+	"reflect"
 	"fmt"
 	"math"
 	"math/big"
@@ -277,6 +278,12 @@ func c18Run[T int | int32 | int64 | float32 | float64](k c18Kind, mk func() *z.N
 		zh.Install(x, zh.PoolLIFO, zh.OrderSorted)
 		withTest := x.Bool("upperBoundTest")
 		in := inputs[x.Choose(len(inputs), "input")]
+		place := 0
+		switch in.repr {
+		case "json", "jsonexp", "form", "oddform":
+		default:
+			place = x.Choose(4, "placement") // 0 top level, 1 element of a typed slice, 2 element of []any, 3 value of a typed map
+		}
 		s := mk()
 		if withTest {
 			s = s.LT(T(100))
@@ -310,8 +317,42 @@ func c18Run[T int | int32 | int64 | float32 | float64](k c18Kind, mk func() *z.N
 					}
 				}
 			default:
-				for _, i := range s.Parse(in.val, &dest) {
-					codes = append(codes, i.Code)
+				collect := func(m z.ZogIssueMap) {
+					for k, l := range m {
+						if k != "$first" {
+							for _, i := range l {
+								codes = append(codes, i.Code)
+							}
+						}
+					}
+				}
+				switch place {
+				case 0:
+					for _, i := range s.Parse(in.val, &dest) {
+						codes = append(codes, i.Code)
+					}
+				case 1, 2:
+					// the only element of a list: a statically typed Go slice of the input's own type, or []any
+					var list any = []any{in.val}
+					if place == 1 {
+						sl := reflect.MakeSlice(reflect.SliceOf(reflect.TypeOf(in.val)), 1, 1)
+						sl.Index(0).Set(reflect.ValueOf(in.val))
+						list = sl.Interface()
+					}
+					var d []T
+					collect(z.Slice(s).Parse(list, &d))
+					if len(d) == 1 {
+						dest = d[0]
+					} else if len(codes) == 0 {
+						codes = append(codes, "coerce") // nothing was stored and nothing reported: not this property's business
+					}
+				case 3:
+					// a value of a statically typed map
+					mp := reflect.MakeMap(reflect.MapOf(reflect.TypeOf(""), reflect.TypeOf(in.val)))
+					mp.SetMapIndex(reflect.ValueOf("v"), reflect.ValueOf(in.val))
+					var d struct{ V T }
+					collect(z.Struct(z.Schema{"v": s}).Parse(mp.Interface(), &d))
+					dest = d.V
 				}
 			}
 		}()
@@ -326,8 +367,8 @@ func c18Run[T int | int32 | int64 | float32 | float64](k c18Kind, mk func() *z.N
 			}
 		}
 		out := &mc.Outcome{Traces: 1, Nontrivial: true}
-		out.Sig = fmt.Sprintf("%s|%s|coerce=%v|codes=%d", k.name, in.repr, coerce, len(codes))
-		out.Sample = map[string]any{"schema": k.name, "input": in.desc, "repr": in.repr, "issue_codes": codes, "dest": fmt.Sprint(dest)}
+		out.Sig = fmt.Sprintf("%s|%s|%d|coerce=%v|codes=%d", k.name, in.repr, place, coerce, len(codes))
+		out.Sample = map[string]any{"schema": k.name, "input": in.desc, "repr": in.repr, "placement": place, "issue_codes": codes, "dest": fmt.Sprint(dest)}
 		if coerce || required {
 			return out // a coerce issue is always an acceptable answer for C18
 		}
@@ -342,7 +383,7 @@ func c18Run[T int | int32 | int64 | float32 | float64](k c18Kind, mk func() *z.N
 				class = "garbage-accepted"
 			}
 			out.Viol = append(out.Viol, &mc.Violation{
-				Key:      fmt.Sprintf("C18:%s:%s:%s", k.name, in.repr, class),
+				Key:      fmt.Sprintf("C18:%s:%s:%s%s", k.name, in.repr, class, []string{"", ":in-typed-slice", ":in-list", ":in-typed-map"}[place]),
 				What:     fmt.Sprintf("%s schema, input %s: no coerce issue but destination is %v — %s", k.name, in.desc, dest, why),
 				Expected: why,
 				Observed: fmt.Sprintf("dest=%v issues=%v", dest, codes),
@@ -371,7 +412,7 @@ func init() {
 		Rule:  "one execution = one (numeric schema, source representation, magnitude, with/without upper-bound test) case from the full product; every case is non-trivial (a coercion is attempted); distinct = distinct (schema, representation, coerce-issue?, #issues) signatures",
 		Floor: 30,
 		Bound: func(tier string) string {
-			return fmt.Sprintf("full product: 5 schemas x %d magnitudes x every representation that can express them (int,int32,int64,float32,float64,decimal string,exponent string,JSON number,form string) + NaN/Inf + %d odd strings, x {no test, LT(100)}", len(c18Magnitudes), len(c18Odd))
+			return fmt.Sprintf("full product: 5 schemas x %d magnitudes x every representation that can express them (int,int32,int64,float32,float64,decimal string,exponent string,JSON number,form string) + NaN/Inf + %d odd strings, x {no test, LT(100)} x placement of Go-native inputs {top level, only element of a typed slice of the input's own type, of []any, value of a typed map}", len(c18Magnitudes), len(c18Odd))
 		},
 		Assumptions: []string{
 			"a coerce (or required) issue is always an acceptable answer; only silent results are compared with exact arithmetic",
